@@ -69,7 +69,7 @@ def frame_clause(pre_g: nx.DiGraph, pre_ids: dict, tr, key: str, named: set, pro
 
 
 # ------------------------------------------------------------------ C06
-def lookups(tr) -> list:
+def lookups(tr, which=("tracklet", "lineage")) -> list:
     ta = tr.track_annotator
     g = tr.graph
     out = []
@@ -77,7 +77,7 @@ def lookups(tr) -> list:
         ("tracklet", ta.tracklet_id_to_nodes, tr.features.tracklet_key),
         ("lineage", ta.lineage_id_to_nodes, tr.features.lineage_key),
     ):
-        if key is None or key not in tr.annotators.features:
+        if name not in which or key is None or key not in tr.annotators.features:
             continue
         scan = models.scan_groups(g, key)
         for k, v in cache.items():
@@ -87,13 +87,13 @@ def lookups(tr) -> list:
             if k not in cache:
                 out.append(("C06.lookup", f"{name} lookup misses id {k} carried by {sorted(scan[k])}"))
     tkey = tr.features.tracklet_key
-    if tkey in tr.annotators.features:
+    if tkey in tr.annotators.features and "tracklet" in which:
         used = {d.get(tkey) for _, d in g.nodes(data=True)}
         nxt = tr.get_next_track_id()
         if nxt in used:
             out.append(("C06.next_id", f"next track id {nxt} is in use"))
     lkey = tr.features.lineage_key
-    if lkey is not None and lkey in tr.annotators.features:
+    if lkey is not None and lkey in tr.annotators.features and "lineage" in which:
         used = {d.get(lkey) for _, d in g.nodes(data=True)}
         nxt = tr.get_next_lineage_id()
         if nxt in used:
